@@ -129,6 +129,13 @@ func (w *World) apiTxn(pt *PoolTxn) {
 		return
 	}
 	if pt.V1 != nil {
+		for _, o := range pt.V1.SiacoinOutputs {
+			w.apiCurrency(o.Value)
+			w.apiCurrency(types.MaxCurrency.Sub(o.Value))
+		}
+		for _, f := range pt.V1.MinerFees {
+			w.apiCurrency(f)
+		}
 		var got types.Transaction
 		js := w.apiRoundTrip(pt.Kind+" transaction "+short(pt.ID), *pt.V1, &got, func() bool { return bytes.Equal(encV1(got), encV1(*pt.V1)) && got.ID() == pt.ID })
 		if js != nil {
@@ -146,6 +153,11 @@ func (w *World) apiTxn(pt *PoolTxn) {
 		}
 		return
 	}
+	for _, o := range pt.V2.SiacoinOutputs {
+		w.apiCurrency(o.Value)
+		w.apiCurrency(o.Value.Div64(uint64(1 + w.tape.Choose(1000))))
+	}
+	w.apiCurrency(pt.V2.MinerFee)
 	var got types.V2Transaction
 	js := w.apiRoundTrip(pt.Kind+" transaction "+short(pt.ID), *pt.V2, &got, func() bool { return bytes.Equal(encAny(got), encAny(*pt.V2)) && got.ID() == pt.ID })
 	if js != nil {
@@ -159,6 +171,18 @@ func (w *World) apiTxn(pt *PoolTxn) {
 		}
 		w.stats.Inc("probe.api.policy-string")
 	}
+}
+
+// apiCurrency sends a currency value in its unit form and in its exact form.
+func (w *World) apiCurrency(c types.Currency) {
+	for _, str := range []string{c.String(), c.ExactString(), fmt.Sprintf("%d H", c)} {
+		back, err := types.ParseCurrency(str)
+		if err != nil || back != c {
+			w.violate("C20", "text-roundtrip-differs", fmt.Sprintf("currency %s (%s) does not parse back from its own text form %q: %v %v", c.ExactString(), c, str, back, err))
+			return
+		}
+	}
+	w.stats.Inc("probe.api.currency-text")
 }
 
 // apiText sends an address as text, unharmed and with one character altered.
